@@ -1,6 +1,7 @@
 import Capella.Driver.Util
 import Capella.Model.Path
 import Capella.Model.Quote
+import Capella.Model.Http
 namespace Capella.Driver.Path
 open Lean Capella.Driver Capella.Path
 
@@ -43,6 +44,14 @@ def handle (op : String) (j : Json) : Except String Json := do
     let s ← j.getObjValAs? String "s"
     let safe ← getBool j "slash_safe"
     pure (jstr (Capella.Quote.quote safe (utf8 s)))
+  | "http.request" =>
+    let path ← getStr j "path"
+    let sd ← getStr j "subdir"
+    let n ← getStr j "name"
+    match Capella.Http.request path sd n with
+    | .url u => pure (Json.mkObj [("url", jstr u)])
+    | .valueError => pure (Json.mkObj [("err", Json.str "ValueError")])
+    | .keyError c => pure (Json.mkObj [("err", Json.str ("KeyError:%" ++ String.singleton c))])
   | "unquote" =>
     let s ← getStr j "s"
     pure (Json.arr ((Capella.Quote.unquote s).map (fun b => Json.num b.toNat)).toArray)
